@@ -73,7 +73,15 @@ def rename_trial(chk, p, sess, probe, o, T, new_name, base_build, stats, kind, t
     rep = {"files": files, "occurrence": [o.file, o.line, o.col, o.text, o.role], "new_name": new_name}
 
     def fail(what, **kw):
-        chk.oracle_failure(klass, "rename `%s` -> `%s` at %s:%d:%d (%s, %s): %s" % (o.text, new_name, o.file, o.line, o.col, o.role, kind, what),
+        k = klass
+        if k is not None and tie is not None:
+            # the class is decided by the predicate of the guarded theorem (extracted from Coq), evaluated on the real
+            # table and Analysis; the generator-level predicate must agree, else the failure is reported unclassified
+            known, _ = tie.classify(o, mid)
+            tie.n["classified_by_extracted_predicate"] += 1
+            if known is not True:
+                k = None
+        chk.oracle_failure(k, "rename `%s` -> `%s` at %s:%d:%d (%s, %s): %s" % (o.text, new_name, o.file, o.line, o.col, o.role, kind, what),
                            dict(rep, **kw))
         return False
     edits = sess.rename(o.file, o.line, mid, new_name)
@@ -141,8 +149,8 @@ def run(chk):
     probe = Proc([common.build_probe()])
     mos = common.build_mos()
     thorough = chk.tier == "thorough"
-    n = 250 if thorough else 24
-    per_program = 40 if thorough else 11
+    n = 150 if thorough else 36
+    per_program = 30 if thorough else 12
     workdir = os.path.join(common.CACHE, "work")
     os.makedirs(workdir, exist_ok=True)
     stats = {"programs": 0, "discarded": 0, "occurrences_asked": 0, "offered": 0, "not_offered": 0, "renames": 0, "offered_but_null": 0,
@@ -195,6 +203,11 @@ def run(chk):
                     mid = o.col + (len(o.text) // 2 if len(o.text) > 1 else 0)
                     stats["occurrences_asked"] += 1
                     offer = sess.prepare_rename(o.file, o.line, mid)
+                    _, mprep = tie.classify(o, mid)
+                    tie.n["prepare_requests"] += 1
+                    if mprep is not None and mprep != (offer is not None):
+                        chk.tie_break("correspondence:prepare_rename", "model %s, server %s at %s:%d:%d `%s`" % (mprep, offer, o.file, o.line, mid, o.text),
+                                      {"files": files, "position": [o.file, o.line, mid]})
                     if offer is None:
                         stats["not_offered"] += 1
                         continue
